@@ -8,9 +8,7 @@
    Storage/FreezerTableData.v, preserved by every operation: Storage/FreezerTableOps.v); the freezer level
    is C24_freezer_crash_safe_repeated (histories with crashes + NewFreezer inside, any number of times) and
    C24_freezer_crash_safe (histories ending with the crash; cross-table condition derived from the history; C24_freezer_crash_safe_partial
-   is the older version with that condition as a hypothesis).  readable_is_appended:
-   C24_readable_is_appended_partial (every exposed item reads back the appended item; histories in which a
-   truncateTail drops whole data files are not covered).  synced_survive: FULL for one table (C24_synced_survive).  The older,
+   is the older version with that condition as a hypothesis).  readable_is_appended: FULL for one table (C24_readable_is_appended).  synced_survive: FULL for one table (C24_synced_survive).  The older,
    weaker statements below are kept.
 
    FULL STATEMENTS (DESIGN.md C24) and what is proved of them:
@@ -205,30 +203,28 @@ Theorem C24_reopen_contiguous : forall maxsz encode t0 hs ci cd (cm : bool),
 Proof. exact table_crash_safe. Qed.
 Print Assumptions C24_reopen_contiguous.
 
-(* READABLE_IS_APPENDED (one table; compression = an abstract codec with decode (encode x) = Some x, the raw
-   table being the identity instance).  The ghost list [bl] computed by [grun] is the sequence of appended
-   items that still have an index entry: an append adds its items at the end (they get the item numbers
-   items, items+1, ...), truncateHead / a crash + reopen keep the first |entries| of them, a reset empties
-   it.  After every guarded history (append batches with roll-over, truncateHead, Sync and its interior
-   points, crashes + reopens inside, truncateTail that moves the virtual tail or resets) every item that is
-   not hidden reads back exactly the item appended at its number, and after one more crash (every cut,
-   every zero fill, either metadata record) every item the reopened table exposes does.
-   PARTIAL only in [nodropped]: histories in which a truncateTail drops whole data files (rewrites the index
-   with a new tail marker) are not covered by this theorem; they are by C24_reopen_contiguous (bytes kept)
-   and by the correspondence run. *)
-Theorem C24_readable_is_appended_partial : forall encode decode,
+(* READABLE_IS_APPENDED, FULL for one table (compression = an abstract codec with decode (encode x) = Some x;
+   the raw table is the identity instance).  The ghost list [bl] computed by [grunF] is the sequence of
+   appended items that still have an index entry, in item order: an append adds its items at the end (they
+   get the item numbers items, items+1, ...), truncateHead and a crash + reopen keep the first |entries| of
+   them, truncateTail keeps the last |entries| (whole data files are dropped from the front and the tail
+   marker advances by as many items; a reset leaves none).  After EVERY guarded history (append batches
+   with roll-over, truncateHead, truncateTail, Sync and its interior points, crashes + reopens inside)
+   every item that is not hidden reads back exactly the appended item, and after one more crash (every
+   cut, every zero fill, either metadata record) every item the reopened table exposes does. *)
+Theorem C24_readable_is_appended : forall encode decode,
   (forall x, decode (encode x) = Some x) ->
   forall maxsz t0 hs,
-  maxsz < two32 -> init true = Ok t0 -> hguarded maxsz encode t0 hs -> nodropped encode maxsz t0 hs ->
-  let '(t, bl) := grun encode maxsz t0 [] hs in
+  maxsz < two32 -> init true = Ok t0 -> hguarded maxsz encode t0 hs ->
+  let '(t, bl) := grunF encode maxsz t0 [] hs in
   (forall k b, nth_error bl k = Some b -> t_hidden t <= t_offset t + N.of_nat k ->
                retrieve decode t (t_offset t + N.of_nat k) = Ok b) /\
   (forall ci cd (cm : bool), cut_ok t ci cd ->
      exists t', crash_reopen true t ci cd cm = Ok t' /\ t_offset t' = t_offset t /\
        forall i, t_hidden t' <= i -> i < t_items t' ->
          exists b, nth_error bl (N.to_nat (i - t_offset t)) = Some b /\ retrieve decode t' i = Ok b).
-Proof. exact table_readable. Qed.
-Print Assumptions C24_readable_is_appended_partial.
+Proof. exact table_readable_full. Qed.
+Print Assumptions C24_readable_is_appended.
 
 (* SYNCED_SURVIVE, FULL for one table.  The ghost [S] computed by [srun] along the history is the item count
    at the last completed Sync, lowered to the item count after every later step (so: the items covered by
